@@ -157,6 +157,15 @@ def mul_events(args):
                 events.append({"c": c, "op": "mul", "A": {"t": tA}, "B": Z0, "k": k, "ka": 0, "kb": 0, "out": out, "raw": [],
                                "how": name + ("/rmul" if left else "/mul")})
                 keys.append(["F8-y0"] if even_order(P) else [])
+                # the negation of an object that has already been multiplied (its table, if any, exists by now)
+                if k in (2, 3, n - 1) and isinstance(A, ec.PointJacobi):
+                    NA = -A
+                    tN = triple(ec, cname, NA)
+                    for kk in (k, 5, n + 2):
+                        out = out_point(ec, lambda: NA * kk)
+                        events.append({"c": c, "op": "mul", "A": {"t": tN}, "B": Z0, "k": kk, "ka": 0, "kb": 0, "out": out, "raw": [],
+                                       "how": name + "/negated-after-use"})
+                        keys.append(["F8-y0"] if even_order(P) else [])
         # mul_add: a*P + b*Q for Q in {P, -P, 2P, identity, another point}
         others = [P, (P[0], (-P[1]) % p), toy.t_add(P, P, p, a), None, pts[(pts.index(P) + 1) % len(pts)]]
         for Q in others:
